@@ -6,7 +6,7 @@ From Coq Require Import List NArith ZArith Bool Permutation.
 Import ListNotations.
 Require Import Verif.Lib.Wire Verif.Gen.Facts_C18 Verif.Model.C18.
 Require Import Verif.Proofs.C18_kahn Verif.Proofs.C18_build Verif.Proofs.C18 Verif.Proofs.C18_rep Verif.Proofs.C18_cycle.
-Require Import Verif.Proofs.C18_gen Verif.Proofs.C18_derivers.
+Require Import Verif.Proofs.C18_gen Verif.Proofs.C18_derivers Verif.Proofs.C18_wire Verif.Proofs.C18_args.
 
 (* the emission loop never runs out of fuel and never looks up a deleted node *)
 Theorem C18_sorted_total : forall s, sorted s <> Internal.
@@ -258,3 +258,80 @@ Theorem C18_derivers_mapped_innermost : forall adds l,
   sorted (fst (derivers_scenario adds)) = Sorted l -> mapped_innermost (map fst l) = true.
 Proof. exact derivers_mapped_innermost. Qed.
 Print Assumptions C18_derivers_mapped_innermost.
+
+(* =====================================================================
+   The WIRE-LEVEL judges (what spec_holds of the harness evaluates on the implementation's
+   observation, through run_C18 tags 1/3/5/7) accept every answer the model can put on the wire:
+   sorter cases step by step, tween histories (refusal codes, implicit() looks, requests with
+   their enter/exit log), deriver scenarios (order, mapped_view innermost, log) and predicate
+   scenarios (order and evaluation order).  Hence agreement of implementation and model on the
+   wire implies that the judge accepts the implementation's observation. *)
+Theorem C18_wire_steps_judged : forall c ops,
+  judge_steps c [] ops (map put_step (run_ops (new_sorter c) ops)) = map (fun _ => vbool true) ops.
+Proof. exact wire_steps_judged. Qed.
+Print Assumptions C18_wire_steps_judged.
+
+Theorem C18_wire_history_judged : forall ex evs,
+  judge_history ex tweens_init_decls evs (tweens_history (tweens_init ex) evs) = map (fun _ => vbool true) evs.
+Proof. exact wire_history_judged. Qed.
+Print Assumptions C18_wire_history_judged.
+
+Theorem C18_wire_derivers_judged : forall adds,
+  judge_derivers adds (derivers_obs (fst (derivers_scenario adds))) = true.
+Proof. exact wire_derivers_judged. Qed.
+Print Assumptions C18_wire_derivers_judged.
+
+Theorem C18_wire_preds_judged : forall k adds,
+  let '(o, ev) := preds_obs (preds_scenario k adds) in judge_preds k adds o ev = Some true.
+Proof. exact wire_preds_judged. Qed.
+Print Assumptions C18_wire_preds_judged.
+
+(* =====================================================================
+   The ARGUMENT PROCESSING of the directives, regenerated from config/views.py and config/tweens.py on this run
+   (harness/c18/translate_args.py): reserved names, default hints, as_sorted_tuple, the forced `over mapped_view`,
+   the refusal checks in source order, and the call the register() closure makes (keywords bound by the callee's
+   parameter names) *)
+Theorem C18_gen_deriver_args_is_model : forall n u o, gen_deriver_args n u o = deriver_args n u o.
+Proof. exact gen_deriver_args_is_model. Qed.
+Print Assumptions C18_gen_deriver_args_is_model.
+
+(* what add_view_deriver hands to derivers.add IS the property's reading of the hints: after = under, before = over *)
+Theorem C18_gen_deriver_args_hints : forall n u o, gen_deriver_args n u o = deriver_hints n u o.
+Proof. exact gen_deriver_args_hints. Qed.
+Print Assumptions C18_gen_deriver_args_hints.
+
+Theorem C18_gen_add_tween_is_model : forall n f u o e,
+  gen_add_tween n f u o e = add_tween_model n f u o e /\
+  gen_add_tween_directive n f u o = add_tween_model n f u o false.
+Proof. exact gen_add_tween_both. Qed.
+Print Assumptions C18_gen_add_tween_is_model.
+
+(* one add_tween event of a history = the regenerated directive followed by the action it registered *)
+Theorem C18_gen_tweens_history_add : forall n f u o t r,
+  tweens_history t (TAdd (n, f, u, o) :: r) =
+  match gen_add_tween_directive n f u o with
+  | inl c => vN c :: tweens_history t r
+  | inr reg => vN 0 :: tweens_history (apply_reg reg t) r
+  end.
+Proof. exact gen_tweens_history_add. Qed.
+Print Assumptions C18_gen_tweens_history_add.
+
+(* the explicit list of the settings = _add_tween(name, explicit=True) for each (non-reserved) name, in order *)
+Theorem C18_gen_tweens_init_by_directive : forall ex,
+  forallb (fun nf => negb (text_eqb (fst nf) tw_main || text_eqb (fst nf) tw_ingress)) ex = true ->
+  forall t0,
+  fold_left (fun t nf => add_explicit (fst nf) (snd nf) t) ex t0 =
+  fold_left (fun t nf => match gen_add_tween (fst nf) (snd nf) HNone HNone true with
+                         | inr reg => apply_reg reg t | inl _ => t end) ex t0.
+Proof. exact tweens_init_by_directive. Qed.
+Print Assumptions C18_gen_tweens_init_by_directive.
+
+(* end to end for derivers: any add_view_deriver calls processed by the REGENERATED argument code on top of the stock
+   pipeline give an order / error the judge accepts for the declarations (under = after, over = before), and a
+   sorted pipeline keeps mapped_view innermost *)
+Theorem C18_gen_derivers_scenario_judged : forall adds,
+  let s := fst (fold_left gen_deriver_step adds (default_derivers, [])) in
+  judge cfg_derivers (decls_of cfg_derivers (deriver_ops adds)) (sorted s) = true /\
+  forall l, sorted s = Sorted l -> mapped_innermost (map fst l) = true.
+Proof. exact gen_derivers_scenario_judged. Qed.
+Print Assumptions C18_gen_derivers_scenario_judged.
